@@ -100,3 +100,31 @@ PARTIAL += [
     "converter's termination is observed by family `ustream` (per-case time limit), not proved; finding F-source-minus-one is "
     "modelled as it is (C03_cex_source_minus_one): ustream_read_chars returns -1 with error code -1",
 ]
+
+# ---- group gX: composition parser model -> store model over whole histories; review rA findings on C03 ----
+LEAN_MODULES += ["CifModel.Lemmas.ParserStoreSim", "CifModel.Lemmas.ParserStoreRun", "CifModel.Props.ReviewRC03"]
+REQUIRED += ["CifModel.C03_parser_store_refines_covered_partial", "CifModel.C03_parse_is_store_history_partial",
+             "CifModel.C03_store_inv_after_parse_partial",
+             "CifModel.ParserSim.tree_upd", "CifModel.ParserSim.sim_mkBlock", "CifModel.ParserSim.sim_prune", "CifModel.ParserSim.sim_mkLoop",
+             "CifModel.ParserSim.sim_addPkt", "CifModel.ParserSim.sim_setVal", "CifModel.ParserSim.rep_step", "CifModel.ParserSim.run_sim",
+             "CifModel.ParserSim.parse_store_sim", "CifModel.Model.Parser.mkLoop_spec", "CifModel.Model.Parser.prune_spec'"]
+PARTIAL += [
+    "group gX — C03_parser_store_refines_full (still a def) is now PROVED for the COVERED traces (C03_parser_store_refines_covered_partial): "
+    "every option record, policy and input, completed or aborted parses, lenient creations included (Store.Op.mkBlock / mkFrame carry the "
+    "`lenient` flag of cif_create_block_internal / cif_container_create_frame_internal; families store / storecontract / parse exercise it), "
+    "into a NEW CIF: the translated history (storeOps) runs through Store.step call by call with CIF_OK and ends in a store whose Store.abs IS "
+    "the parser model's CIF; the history is in contract (C03_parse_is_store_history_partial: C04_refines_from_start applies, and with it "
+    "C04 / C05 / C06 / C07's theorems about in-contract histories); afterwards WOk / Inv / autocommit hold and the store's own abstraction is "
+    "OkCif and RectCif (C03_store_inv_after_parse_partial).  COVERED (ParserSim.coveredFrom) = (1) the trace creates NO SAVE FRAME and (2) "
+    "every cif_loop_add_packet directly follows the create_loop / add_packet of the same container (parse_loop's shape; Model/ParserStoreOps."
+    "shapedFrom, evaluated by the driver on every request: sto=BADshape).  MISSING for the full theorem: (a) save frames — "
+    "Lemmas/ParserStoreSim.tree_upd is proved for frame-free states (`AState.tree` = one container per block row); with frames it must say that "
+    "the container with a given id occurs once in the tree (unique parents, parent < child); (b) pre-existing targets (the driver runs "
+    "cifOps(pre) ++ trace; the theorem starts from the empty world); (c) hypothesis (2) as a theorem about every trace.",
+    "review rA, finding 3: `consistent` (OkCif / RectCif) tolerates a loop WITHOUT packets: an ABORTED parse (callback stop or failure exit "
+    "inside a loop body) skips cif_container_prune and leaves the loop it was filling packet-less; cif_walk / cif_write answer "
+    "CIF_EMPTY_LOOP on such a target (observed and tolerated by the implementation-level oracle exactly then).  No theorem says that a "
+    "NON-aborted parse leaves no packet-less loop.  Finding 4: the pre-existing target of C03_consistent_after is a free tree satisfying "
+    "OkCif / RectCif; that a store reached by API calls shows such a tree is proved only for stores built by a (covered) parse "
+    "(C03_store_inv_after_parse_partial), there is no general `Store.Inv s.db -> OkCif (abs s.db)`.",
+]
